@@ -3,6 +3,8 @@
 
 def _nontrivial(line):
     f = line.split(" ; ")[0].split()
+    if f[0] == "C07W":
+        return f[2] != "-" or f[3] != "-"
     # a competing value is present: some query pair or a body
     return len(f) >= 6 and (f[4] != "-" or f[5] != "-")
 
